@@ -50,6 +50,10 @@ func init() {
 			{ID: "R02b", Floor: 5, Doc: "EOF sanitisation: the error of a section-body read from the stream reaches a return only along the not-equal outcome of a comparison with io.EOF (or after being replaced/wrapped)", Run: ruleR02b},
 			{ID: "R02f", Floor: 2, Doc: "the CARv2 payload is read through a reader bounded by the real stream, not by what the header announces (= R14a)", Run: ruleR14a},
 			{ID: "R02g", Floor: 10, Doc: "no new dropped error on the read paths (a failed Seek/Read that goes unnoticed turns truncation into a clean end) (= R16h)", Run: ruleR16h},
+			{ID: "R02h", Floor: 1, Doc: "a digest recomputed for comparison has the length of the digest it is compared with: every multihash.Sum / SumStream in the library takes its length from the CID (Prefix.MhLength, the decoded Length) — the constant -1 ('default length') rejects every block addressed by a truncated digest", Run: ruleR02h},
+			{ID: "R02i", Floor: 1, Doc: "no Read whose byte count is thrown away: an io.Reader may return fewer bytes than asked for with a nil error, so a library call of Read that ignores n has read an unknown part of what it then decodes (fixed-size fields are read with io.ReadFull / binary.Read); the one site of the pinned tree is tabled", Run: ruleR02i},
+			{ID: "R02j", Floor: 2, Doc: "the error of a reader or loader is not replaced by the outcome of a deferred step: a truncated or corrupt archive must not come back as success because a deferred flush succeeded (= R16g)", Run: ruleR16g},
+			{ID: "R02k", Floor: 1, Doc: "a reader does not keep a pooled buffer it has given back: the next reader to take it from the pool would have its bytes consumed by this one (= R01m)", Run: ruleR01m},
 		},
 	})
 }
@@ -788,4 +792,95 @@ func ruleR02e(c *Ctx, r *Report) {
 		})
 		r.Check(nFull == 1 && direct == 0, key, c.Pos(fn.Pos()), "one byte obtained with io.ReadFull", "ReadByte issues a bare Read: an io.Reader may return (1, io.EOF) for its last byte, which the varint decoder then takes for a clean end although a byte was delivered")
 	}
+}
+
+func ruleR02h(c *Ctx, r *Report) {
+	n := 0
+	for _, fn := range c.RepoFuncs() {
+		if !inLib(fn) {
+			continue
+		}
+		ord := 0
+		eachInstr(fn, func(in ssa.Instruction) {
+			ci, ok := in.(*ssa.Call)
+			if !ok {
+				return
+			}
+			f := calleeFunc(ci.Common())
+			if !(funcIs(f, pkgMh, "", "Sum") || funcIs(f, pkgMh, "", "SumStream")) || len(ci.Call.Args) < 3 {
+				return
+			}
+			n++
+			ord++
+			key := fmt.Sprintf("digest-length@%s#%d", fnKey(fn), ord)
+			fromCid := false
+			for _, o := range origins(ci.Call.Args[2], originOpts{binops: true}) {
+				if o.Kind == "field" && o.Field != nil && (o.Field.Name() == "MhLength" || o.Field.Name() == "Length") {
+					fromCid = true
+				}
+				if o.Kind == "call" && o.Fn == nil {
+					fromCid = true // len(digest)
+				}
+			}
+			r.Check(fromCid, key, c.Pos(ci.Pos()), "length taken from the CID's prefix / decoded multihash",
+				"the digest is recomputed with a length that does not come from the CID (a constant such as -1 means the hash function's default length): blocks addressed by truncated digests (sha2-256 cut to 20 bytes) never compare equal")
+		})
+	}
+	r.Count("direct multihash.Sum/SumStream calls in library packages", n)
+}
+
+// bareReadBaseline: Read calls of the pinned library that ignore the byte count.
+var bareReadBaseline = map[string]string{
+	"v2/internal/io.offsetReadSeeker.ReadByte": "one-byte read through its own ReadAt-backed Read: 0 bytes comes with an error, which is returned",
+}
+
+func ruleR02i(c *Ctx, r *Report) {
+	n := 0
+	for _, fn := range c.RepoFuncs() {
+		if !inLib(fn) {
+			continue
+		}
+		ord := 0
+		eachInstr(fn, func(in ssa.Instruction) {
+			ci, ok := in.(*ssa.Call)
+			if !ok {
+				return
+			}
+			name := ""
+			if ci.Common().IsInvoke() {
+				name = ci.Common().Method.Name()
+			} else if f := calleeFunc(ci.Common()); f != nil {
+				name = f.Name()
+			}
+			sig := ci.Common().Signature()
+			if name != "Read" || sig == nil || sig.Params().Len() != 1 || sig.Results().Len() != 2 {
+				return
+			}
+			if sl, ok := sig.Params().At(0).Type().Underlying().(*types.Slice); !ok || !types.Identical(sl.Elem(), types.Typ[types.Byte]) {
+				return
+			}
+			nv := extractOf(ci, 0)
+			used := false
+			if nv != nil {
+				for _, ref := range *nv.Referrers() {
+					if _, isDbg := ref.(*ssa.DebugRef); !isDbg {
+						used = true
+					}
+				}
+			}
+			if used {
+				return
+			}
+			n++
+			ord++
+			root := fnKey(rootFuncOf(fn))
+			key := fmt.Sprintf("read-count-ignored@%s#%d", root, ord)
+			if why, ok := bareReadBaseline[root]; ok {
+				r.Exempt(key, c.Pos(ci.Pos()), "site of the pinned tree: "+why)
+				return
+			}
+			r.Viol(key, c.Pos(ci.Pos()), "Read is called and its byte count ignored: on a short read (a pipe, a network body, any reader that delivers in pieces) the rest of the buffer stays zero and is decoded as if it had been read")
+		})
+	}
+	r.Count("Read calls that ignore the byte count", n)
 }
